@@ -503,7 +503,11 @@ class Theory:
                 self.extend_constant(ext)
             elif ext.is_theorem():
                 if ext.prf:
-                    self.check_proof(ext.prf)
+                    # The proof must be free of gaps and conclude the stated theorem.
+                    res_th = self.check_proof(ext.prf, no_gaps=True)
+                    if not res_th.can_prove(ext.th):
+                        raise CheckProofException(
+                            "proof of %s does not conclude the stated theorem" % ext.name)
                 else:  # No proof - add as axiom
                     ext_report.add_axiom(ext.name, ext.th)
 
